@@ -107,14 +107,20 @@ def build_struct(name, kinds, distinct_sizers=False):
     distinct_sizers every ext array gets its own sizer sz<i> (what the C++ full generator accepts)."""
     lines, fields = [], []
     szname = {}
+    # ('sizer', int type, j): the sizer of the ext array j members further on, declared at this position
+    # (possibly in a later part of the struct than the main one) instead of at the front
+    for i, k in enumerate(kinds):
+        if k[0] == 'sizer':
+            assert kinds[i + k[2]][0] in ('ext', 'bext'), kinds
+            szname[i + k[2]] = 'sz%d' % (i + k[2])
     if distinct_sizers:
         for i, k in enumerate(kinds):
-            if k[0] in ('ext', 'bext'):
+            if k[0] in ('ext', 'bext') and i not in szname:
                 szname[i] = 'sz%d' % i
                 lines.append('u8 sz%d;' % i)
                 fields.append(W.Field('sz%d' % i, W.Int(1, False), ['m%d' % i]))
-    elif any(k[0] in ('ext', 'bext') for k in kinds):
-        ext_names = ['m%d' % i for i, k in enumerate(kinds) if k[0] in ('ext', 'bext')]
+    elif any(k[0] in ('ext', 'bext') and i not in szname for i, k in enumerate(kinds)):
+        ext_names = ['m%d' % i for i, k in enumerate(kinds) if k[0] in ('ext', 'bext') and i not in szname]
         lines.append('u8 sz;')
         fields.append(W.Field('sz', W.Int(1, False), ext_names))
     for i, (kind, tn, n) in enumerate(kinds):
@@ -122,7 +128,9 @@ def build_struct(name, kinds, distinct_sizers=False):
         ty = POOL.t.get(tn)
         tt = PTEXT.get(tn, tn)
         u32 = W.Int(4, False)
-        if kind == 'plain':
+        if kind == 'sizer':
+            lines.append('%s sz%d;' % (tn, i + n)); fields.append(W.Field('sz%d' % (i + n), ty, ['m%d' % (i + n)]))
+        elif kind == 'plain':
             lines.append('%s %s;' % (tt, m)); fields.append(W.Field(m, ty))
         elif kind == 'fixed':
             lines.append('%s %s[%d];' % (tt, m, n)); fields.append(W.Field(m, W.Array(W.FIXED, n, ty)))
@@ -190,7 +198,25 @@ def sample_structs(rng, count, max_members=4, with_floats=False, prefix='S', dis
         ks = [rng.choice(mk) for _ in range(n)]
         if rng.random() < 0.25:
             ks[-1] = rng.choice(lk)
+        if distinct_sizers:
+            ks = place_sizers(rng, ks)
         out.append(build_struct('%s%d' % (prefix, i), ks, distinct_sizers))
+    return out
+
+
+def place_sizers(rng, ks):
+    """every second ext array gets its sizer (u8, u16 or u32) at a random position before it instead of at the front"""
+    items = [[k, None] for k in ks]              # [kind, target item]
+    for it in list(items):
+        if it[0][0] in ('ext', 'bext') and rng.random() < 0.5:
+            p = rng.randint(0, items.index(it))
+            items.insert(p, [('sizer', rng.choice(['u8', 'u16', 'u32']), 0), it])
+    out = []
+    for i, (k, target) in enumerate(items):
+        if target is not None:
+            j = [x is target for x in items].index(True)
+            k = (k[0], k[1], j - i)
+        out.append(k)
     return out
 
 
@@ -286,4 +312,9 @@ CXX_PROBES = [
     ('P13', [('bdynamic', 'byte', 0), ('limited', 'u8', 2), ('plain', 'D8', 0), ('fixed', 'u16', 3)]),
     # a part (4-aligned) followed by a less aligned part (2): the shape of the recorded C09 finding
     ('P14', [('blimited', 'byte', 5), ('ext', 'F16', 0), ('dynamic', 'i8', 0), ('plain', 'TU16', 0)]),
+    # sizers declared in a later part than the main one: before another counted array of the same part (P15),
+    # directly before their array (P16), and one part ahead of it (P17)
+    ('P15', [('dynamic', 'u32', 0), ('sizer', 'u16', 2), ('limited', 'F12', 3), ('ext', 'u16', 0), ('plain', 'u32', 0)]),
+    ('P16', [('bdynamic', 'byte', 0), ('plain', 'u16', 0), ('sizer', 'u32', 1), ('ext', 'F64', 0), ('optional', 'u64', 0)]),
+    ('P17', [('dynamic', 'u64', 0), ('sizer', 'u8', 2), ('dynamic', 'F16', 0), ('ext', 'E', 0), ('plain', 'i32', 0)]),
 ]
